@@ -88,6 +88,69 @@ Proof.
   intros [o args] Hin ps Hr. exact (all_ops_confined o root args ps Hin Hr).
 Qed.
 
+(* ---- the bodies of the path functions ---- *)
+(* obligations against the source (Gen/ChrootOps.v, second part). The byte-level model (Chroot/Bytes.v) is a
+   transliteration of exactly these statements (alpha-normalised go/printer text: recv, p0 p1 .., v0 v1 ..); a call of
+   strings.ToLower / EqualFold / a helper in openAllowed or join, a type test on the wrapped filesystem in NewChrootFs,
+   a changed operand of filepath.Rel: each of them makes one of the three lemmas below fail to check. *)
+Definition expected_shapes : list (string * list string) := [
+  ("NewChrootFs", [
+     "if !filepath.IsAbs(p1) { var v0 error p1, v0 = filepath.Abs(p1) if v0 != nil { panic(v0) } }";
+     "return &ChrootFs{fs: p0, root: cleanPathForMemFs(p0, p1)}"
+  ]);
+  ("cleanPathForMemFs", [
+     "if _, v0 := p0.(*afero.MemMapFs); runtime.GOOS == windows && v0 { p1 = trimVolumeName(p1) }";
+     "return p1"
+  ]);
+  ("join", [
+     "p0 = trimVolumeName(p0)";
+     "v0, v1 := filepath.Abs(filepath.Join(recv.root, p0))";
+     "if v1 != nil { return """", v1 }";
+     "return cleanPathForMemFs(recv.fs, v0), nil"
+  ]);
+  ("openAllowed", [
+     "v0, v1 := filepath.Rel(recv.root, p0)";
+     "if v1 != nil { return v1 }";
+     "if v0 != """" && strings.Split(v0, string(os.PathSeparator))[0] == "".."" { return errors.New(""<text>"") }";
+     "return nil"
+  ]);
+  ("trimVolumeName", [
+     "return strings.TrimLeft(p0, filepath.VolumeName(p0))"
+  ]);
+  ("wrapCall", [
+     "v0, v1 := recv.join(p0)";
+     "if v1 != nil { return v1 }";
+     "if v2 := recv.openAllowed(v0); v2 != nil { return v2 }";
+     "return p1(v0)"
+  ]);
+  ("wrapCallWithData", [
+     "v0, v1 := recv.join(p0)";
+     "if v1 != nil { return nil, v1 }";
+     "if v2 := recv.openAllowed(v0); v2 != nil { return nil, v2 }";
+     "return p1(v0)"
+  ])
+].
+
+Lemma path_functions_as_modelled : path_shapes = expected_shapes /\ chroot_consts = ["windows=""windows"""].
+Proof. split; reflexivity. Qed.
+
+(* openAllowed hands its operands to filepath.Rel as they are (fs.root, the joined path) and calls nothing but Rel,
+   strings.Split, the string conversion of the separator and errors.New: no case folding, no normalisation *)
+Lemma open_allowed_no_folding :
+  open_allowed_calls = ["errors.New"; "filepath.Rel"; "string"; "strings.Split"] /\
+  open_allowed_rel_args = ["recv.root"; "param"].
+Proof. split; reflexivity. Qed.
+
+(* NewChrootFs does not look inside the filesystem it wraps: the parameter is stored in the `fs` field and passed to
+   cleanPathForMemFs, whose only type test asks for *afero.MemMapFs (a Windows workaround); the other type tests of the
+   file are the result conversions data.(afero.File) / data.(os.FileInfo). A ChrootFs built on a ChrootFs is therefore
+   just a ChrootFs built on an afero.Fs. *)
+Lemma constructor_opaque :
+  constructor_fs_uses = ["arg:cleanPathForMemFs"; "field:fs"] /\
+  chroot_type_tests = ["Create:afero.File"; "Open:afero.File"; "OpenFile:afero.File"; "Stat:os.FileInfo";
+                       "cleanPathForMemFs:*afero.MemMapFs"].
+Proof. split; reflexivity. Qed.
+
 (* ---- import statements and the module argument (Chroot/Import.v) ---- *)
 Require Import Verif.Chroot.Import.
 
